@@ -64,7 +64,7 @@ def run(ctx):
                 hit |= {F.def_of(n) for n in F.inst_reach([nid], stop=lambda n: F.def_of(n) in spawn)} & removers
             if hit:
                 api.append(name)
-    allowed = [n for n in api if F.fn(n).calls_to("Atomic::<bool>::compare_exchange")]
+    allowed = [n for n in api if F.fn(n).calls_to("Atomic::<bool>::compare_exchange", "Atomic::<bool>::swap")]
     ctx.check(sorted(api) == sorted(allowed) and len(allowed) <= 1, "R03.1", "no-caller-thread-removal",
               "on a caller's thread only shutdown() clears the store; no read, put, upsert, delete or statistics call removes an entry directly", detail=str(sorted(set(api) - set(allowed))))
 
